@@ -174,6 +174,8 @@ _UNITS = ('years', 'months', 'weeks', 'days', 'hours', 'minutes', 'seconds')
 _VALID_UNITS = set(_UNITS)
 _SINGULAR_UNITS = dict(zip(('year', 'month', 'week', 'day', 'hour', 'minute', 'second'), _UNITS))
 _SHORT_UNITS = dict(zip(('y', 'm', 'w', 'd', 'H', 'M', 'S'), _UNITS))
+# The documented example "10-minute: +0s" spells seconds in lowercase (unlike 'm', 's' is unambiguous).
+_SHORT_UNITS['s'] = _SHORT_UNITS['S']
 
 _INTERVAL_ALIASES = {
   'annual':   (1, 'years'),
